@@ -69,6 +69,8 @@ DEFAULT_SPEC = {
     "bridge": 0,           # k read-through reads: last two exons of one gene + first two exons of the next gene on the chromosome
     "outside_exon": 0,     # k genes get reads (enough for a model) with an extra exon upstream of the annotated gene span
     "mapq_mix": 0,         # 1: every third read of an isoform gets a mapping quality from the cycle 5, 20, 1, 4, 59, 10
+    "paralog_iso": 0,      # 1: paralog sources are chosen among genes with two isoforms that share >= 2 consecutive exons; two reads
+                           #    per such gene cover only the shared exons (locally ambiguous) and have a secondary record on the paralog
     "group_tag": "RG",     # BAM tag that carries the group (C09: --read_group tag:<TAG>)
     "twin_chr": 0,         # 1: extra chromosome that is a copy of the first one (same coordinates and strands, own gene ids and reads)
     "novel_gene_overlap": 0,  # k unannotated transcripts inside an annotated gene's span with entirely novel (shifted) introns
@@ -120,6 +122,22 @@ def _plant_sites(seq, exons, strand, canonical=True):
                 _plant(seq, istart, "CT"); _plant(seq, iend - 1, "AC")
         else:
             _plant(seq, istart, "AA"); _plant(seq, iend - 1, "TT")
+
+
+def _shared_exons(g):
+    """indices of >= 2 consecutive exons that the first two isoforms of g have in common (longest run), or None"""
+    if len(g.isoforms) < 2:
+        return None
+    i1, i2 = g.isoforms[0][1], g.isoforms[1][1]
+    best, cur = [], []
+    for i in i1:
+        if i in i2 and (not cur or (i1.index(i) == i1.index(cur[-1]) + 1 and i2.index(i) == i2.index(cur[-1]) + 1)):
+            cur.append(i)
+        else:
+            cur = [i] if i in i2 else []
+        if len(cur) > len(best):
+            best = list(cur)
+    return best if len(best) >= 2 else None
 
 
 def group_name(s, k):
@@ -256,19 +274,13 @@ def generate(spec):
         a0 = g.exons[0][0]
         if a0 > 700:
             g.outside = (a0 - 420, a0 - 260)
-    # unannotated transcripts inside an annotated gene whose introns are all novel (every splice site shifted by 14-25 bp)
-    for g in [x for x in flat if len(x.exons) >= 3 and not x.noncanon][-s["novel_gene_overlap"]:] if s["novel_gene_overlap"] else []:
-        ex = []
-        for i, (a, b) in enumerate(g.exons):
-            na = a if i == 0 else a + 14 + rg.randrange(10)
-            nb = b if i == len(g.exons) - 1 else b - 14 - rg.randrange(10)
-            ex.append((na, nb))
-        g.shifted = ex
-
     # paralogs: copy gene structure to the tail of the next chromosome
     paralogs = []
     if n_chr >= 2:
-        srcs = [g for g in flat if len(g.exons) >= 2][-s["paralogs"]:] if s["paralogs"] else []
+        pool_ = [g for g in flat if len(g.exons) >= 2]
+        if s["paralog_iso"]:
+            pool_.sort(key=lambda g: 1 if _shared_exons(g) else 0)     # stable: genes with a shared segment go last
+        srcs = pool_[-s["paralogs"]:] if s["paralogs"] else []
         for g in srcs:
             ci = CHR_NAMES.index(g.chrom)
             tj = (ci + 1) % n_chr
@@ -292,6 +304,24 @@ def generate(spec):
         ag.isoforms = [(ag.gid + ".t1", [0, 1])]
         ag.antisense_of = g
         genes[CHR_NAMES.index(g.chrom)].append(ag)
+
+    # unannotated transcripts inside an annotated gene whose introns are all novel (every splice site shifted by 14-25 bp); hosts of
+    # an antisense gene are taken first (the novel transcript then overlaps two annotated genes), the rest from the tail
+    if s["novel_gene_overlap"]:
+        pool_s = [x for x in flat if len(x.exons) >= 3 and not x.noncanon]
+        targets = [g for g in hosts[: s["antisense"]] if g in pool_s][: s["novel_gene_overlap"]]
+        for g in reversed(pool_s):
+            if len(targets) >= s["novel_gene_overlap"]:
+                break
+            if g not in targets:
+                targets.append(g)
+        for g in targets:
+            ex = []
+            for i, (a, b) in enumerate(g.exons):
+                na = a if i == 0 else a + 14 + rg.randrange(10)
+                nb = b if i == len(g.exons) - 1 else b - 14 - rg.randrange(10)
+                ex.append((na, nb))
+            g.shifted = ex
 
     # read-through genes: same strand, same structure as a host's first isoform, new gene id (annotation only)
     hosts2 = [g for g in flat if len(g.exons) >= 3]
@@ -682,6 +712,19 @@ def generate(spec):
             rid += 1
             reads.append({"id": "r%04d" % rid, "src": "bridge", "gene": None, "kind": "bridge:%s-%s" % (ga.gid, gb.gid),
                           "records": [mk_record(ga.chrom, blocks, ga.strand, False)]})
+    if s["paralog_iso"]:
+        for g in allgenes:
+            if g.gid in para_of and _shared_exons(g):
+                other = para_of[g.gid]
+                off = other.exons[0][0] - g.exons[0][0]
+                for k in range(2):
+                    rid += 1
+                    blocks = [g.exons[i] for i in _shared_exons(g)]
+                    ob = [(a + off, b + off) for a, b in blocks]
+                    reads.append({"id": "r%04d" % rid, "src": g.isoforms[0][0], "gene": g.gid, "kind": "shared_exons+paralog_secondary",
+                                  "records": [mk_record(g.chrom, blocks, g.strand, False),
+                                              mk_record(other.chrom, ob, other.strand, False, flag_extra=256,
+                                                        with_seq=bool(s["secondary_seq"]))]})
     if s["ambig_multi"]:
         cands = [g for g in allgenes if len(g.isoforms) >= 2 and g.paralog_of is None and g.gid not in para_of
                  and not getattr(g, "no_extra", False) and not getattr(g, "annotation_only", False) and g is not deep
